@@ -26,8 +26,8 @@ CONSTANT KnownIds
 Rec == ndJsonDeserialize(IOEnv.TRACE)
 N == Len(Rec)
 
-VARIABLES l, cur, opt, kq, tq, kN, tN, ended, failed, errmsg, inTab, afterTab, tabCleared, held, phys, must, pend, onJust, prevOut, prevTimeout, viol, cs, lay, flushed
-vars == <<l, cur, opt, kq, tq, kN, tN, ended, failed, errmsg, inTab, afterTab, tabCleared, held, phys, must, pend, onJust, prevOut, prevTimeout, viol, cs, lay, flushed>>
+VARIABLES l, cur, opt, kq, tq, kN, tN, ended, failed, errmsg, inTab, afterTab, tabCleared, held, phys, mphys, must, pend, onJust, prevOut, prevTimeout, viol, cs, lay, flushed
+vars == <<l, cur, opt, kq, tq, kN, tN, ended, failed, errmsg, inTab, afterTab, tabCleared, held, phys, mphys, must, pend, onJust, prevOut, prevTimeout, viol, cs, lay, flushed>>
 
 EndEv == [t |-> "E", k |-> ""]
 NoPend == [on |-> FALSE, keys |-> <<>>, interval |-> 0, delay |-> 0, lo |-> 0, hi |-> 0, open |-> FALSE]
@@ -45,7 +45,7 @@ Bump(i) == TLCSet(i, TLCGet(i) + 1)
 BumpIf(c, i) == c => Bump(i)
 
 Init == /\ l = 1 /\ cur = "" /\ opt = NoOpt /\ kq = <<>> /\ tq = <<>> /\ kN = FALSE /\ tN = FALSE /\ ended = FALSE /\ failed = FALSE /\ errmsg = ""
-        /\ inTab = FALSE /\ afterTab = FALSE /\ tabCleared = FALSE /\ held = {} /\ phys = {} /\ must = NoMust /\ pend = NoPend /\ onJust = FALSE /\ prevOut = 0 /\ prevTimeout = FALSE
+        /\ inTab = FALSE /\ afterTab = FALSE /\ tabCleared = FALSE /\ held = {} /\ phys = {} /\ mphys = {} /\ must = NoMust /\ pend = NoPend /\ onJust = FALSE /\ prevOut = 0 /\ prevTimeout = FALSE
         /\ viol = {} /\ cs = InitLoop /\ lay = <<>> /\ flushed = FALSE
         /\ \A i \in 1..NReg: TLCSet(i, 0)
 
@@ -102,7 +102,7 @@ PollTiming(r) ==
 Reset(r) ==
   /\ cur' = r.id /\ lay' = r.layout /\ cs' = InitLoop /\ opt' = [slack |-> r.slack, errtext |-> r.errtext]
   /\ kq' = <<>> /\ tq' = <<>> /\ kN' = FALSE /\ tN' = FALSE /\ ended' = FALSE /\ failed' = FALSE /\ errmsg' = ""
-  /\ inTab' = FALSE /\ afterTab' = FALSE /\ tabCleared' = FALSE /\ held' = {} /\ phys' = {} /\ must' = NoMust /\ pend' = NoPend /\ onJust' = FALSE /\ prevOut' = 0 /\ prevTimeout' = FALSE
+  /\ inTab' = FALSE /\ afterTab' = FALSE /\ tabCleared' = FALSE /\ held' = {} /\ phys' = {} /\ mphys' = {} /\ must' = NoMust /\ pend' = NoPend /\ onJust' = FALSE /\ prevOut' = 0 /\ prevTimeout' = FALSE
   /\ viol' = {} /\ Report(cur, viol) /\ Bump(1)
 
 ConsumeLine ==
@@ -117,7 +117,7 @@ ConsumeLine ==
            kq2 == IF r.k = "read" /\ r.res = "one" THEN Tail(kq1) ELSE kq1 IN
        /\ viol' = viol \cup Tag(r.k = "read" /\ r.res = "one" /\ (kq1 = <<>> \/ Head(kq1) # r.e), "ENV-wrong-event")
        /\ kq' = kq2 /\ kN' = (kq2 # <<>>) /\ prevOut' = r.tout
-       /\ UNCHANGED <<cur, opt, lay, cs, tq, tN, ended, failed, errmsg, inTab, afterTab, tabCleared, held, phys, must, pend, onJust, prevTimeout>>
+       /\ UNCHANGED <<cur, opt, lay, cs, tq, tN, ended, failed, errmsg, inTab, afterTab, tabCleared, held, phys, mphys, must, pend, onJust, prevTimeout>>
      ELSE IF r.c = "ret" THEN
        /\ viol' = viol \cup Owed
                     \cup Tag(r.panic, "C10-loop-panicked")
@@ -125,7 +125,7 @@ ConsumeLine ==
                     \cup Tag(~failed /\ ~r.ok /\ ~r.panic, "C10-loop-returned-error")
                     \cup Tag(~failed /\ r.ok /\ ~ended, "C10-loop-returned-before-end-of-device")
        /\ Conf(r) /\ must' = NoMust /\ onJust' = FALSE
-       /\ UNCHANGED <<cur, opt, lay, kq, tq, kN, tN, ended, failed, errmsg, inTab, afterTab, tabCleared, held, phys, pend, prevOut, prevTimeout>>
+       /\ UNCHANGED <<cur, opt, lay, kq, tq, kN, tN, ended, failed, errmsg, inTab, afterTab, tabCleared, held, phys, mphys, pend, prevOut, prevTimeout>>
      ELSE
        LET kq1 == kq \o r.arrK   tq1 == tq \o TabQ(r.arrT)
            kN1 == kN \/ r.arrK # <<>>   tN1 == tN \/ r.arrT # <<>>
@@ -139,7 +139,7 @@ ConsumeLine ==
        /\ CASE r.c = "register" ->
                  /\ viol' = viol \cup AfterFailure
                  /\ kq' = kq1 /\ tq' = tq1 /\ kN' = kN1 /\ tN' = tN1
-                 /\ UNCHANGED <<ended, inTab, afterTab, tabCleared, held, phys, must, pend, onJust, prevTimeout>>
+                 /\ UNCHANGED <<ended, inTab, afterTab, tabCleared, held, phys, mphys, must, pend, onJust, prevTimeout>>
             [] r.c = "poll" ->
                  LET fire == r.res = "timeout" /\ pend.on
                      chord == WantedChord(pend.keys, held)
@@ -147,6 +147,9 @@ ConsumeLine ==
                  /\ viol' = viol \cup Owed \cup AfterFailure
                        \* C10: back to waiting while notified-about events are unread (state before this call's arrivals)
                        \cup Tag((kq # <<>> /\ ~kN) \/ (tq # <<>> /\ ~tN), "C10-poll-with-unread-events")
+                       \* C12: the switch has reported a change, the loop was notified and goes back to waiting without reading it
+                       \* (edge-triggered: it will not be told again) - it then does not know which mode the computer is in
+                       \cup Tag(tq # <<>> /\ ~tN, "C12-tablet-event-left-unread")
                        \cup Tag(ended, "C10-call-after-end-of-device")
                        \cup (IF isErr THEN {} ELSE PollTiming(r))
                        \cup Tag(r.res = "dev" /\ \E i \in 1..Len(r.devs): (r.devs[i] = "K" /\ ~kN1) \/ (r.devs[i] = "T" /\ ~tN1), "ENV-bad-readiness")
@@ -161,12 +164,15 @@ ConsumeLine ==
                             ELSE IF fire THEN [pendC EXCEPT !.lo = @ + pend.interval * 1000, !.hi = @ + pend.interval * 1000]
                             ELSE pendC
                  /\ prevTimeout' = (r.res = "timeout") /\ onJust' = FALSE
-                 /\ UNCHANGED <<ended, inTab, afterTab, tabCleared, held, phys>>
+                 /\ UNCHANGED <<ended, inTab, afterTab, tabCleared, held, phys, mphys>>
             [] r.c = "kbd" ->
                  LET one == r.res = "one"
                      \* a key that was up goes down: a further key event in every reading of C11 (a release or a repeated
                      \* press may be an event the mapper ignores, C09, and then leaves the repeat alone)
                      fresh == one /\ r.e.t = "P" /\ r.e.k \notin phys
+                     \* ... and so is the release of a key the mapper was given as pressed (since the last tablet event), in a layout
+                     \* without absorbing mappings: there the mapper considers held exactly the keys it was given, so it acts on the release
+                     freshRel == one /\ r.e.t = "R" /\ r.e.k \in mphys /\ ~inTab /\ \A i \in 1..Len(lay): lay[i].absorbing = <<>>
                  IN
                  /\ viol' = viol \cup Owed \cup AfterFailure
                        \cup Tag(ended, "C10-call-after-end-of-device")
@@ -180,13 +186,14 @@ ConsumeLine ==
                             THEN [on |-> r.ref.ev # <<>>, kind |-> "step", evs |-> r.ref.ev, on2 |-> afterTab /\ r.ref2.ev # <<>>, evs2 |-> r.ref2.ev]
                             ELSE NoMust
                  /\ pend' = IF ~one \/ inTab THEN pendC
-                            ELSE IF r.ref.rep.kind = "NoChange" THEN (IF fresh THEN NoPend ELSE pendC)
+                            ELSE IF r.ref.rep.kind = "NoChange" THEN (IF fresh \/ freshRel THEN NoPend ELSE pendC)
                             ELSE IF r.ref.rep.kind = "Disabled" THEN NoPend
                             ELSE [on |-> TRUE, keys |-> r.ref.rep.keys, interval |-> r.ref.rep.interval, delay |-> r.ref.rep.delay,
                                   lo |-> r.tout + r.ref.rep.delay * 1000, hi |-> 0, open |-> TRUE]
                  /\ prevTimeout' = FALSE /\ onJust' = FALSE
                  /\ tabCleared' = (tabCleared /\ ~(one /\ ~inTab /\ r.ref.rep.kind = "Repeating"))
                  /\ phys' = (IF ~one THEN phys ELSE IF r.e.t = "P" THEN phys \cup {r.e.k} ELSE phys \ {r.e.k})
+                 /\ mphys' = (IF ~one \/ inTab THEN mphys ELSE IF r.e.t = "P" THEN mphys \cup {r.e.k} ELSE mphys \ {r.e.k})
                  /\ UNCHANGED <<inTab, afterTab, held>>
             [] r.c = "tab" ->
                  LET one == r.res = "one" IN
@@ -200,6 +207,7 @@ ConsumeLine ==
                  /\ pend' = IF one THEN NoPend ELSE pendC
                  /\ must' = IF one THEN [on |-> r.ref.ev # <<>>, kind |-> "releaseall", evs |-> r.ref.ev, on2 |-> FALSE, evs2 |-> <<>>] ELSE NoMust
                  /\ onJust' = (one /\ r.on) /\ prevTimeout' = FALSE
+                 /\ mphys' = (IF one THEN {} ELSE mphys)
                  /\ UNCHANGED <<ended, held, phys>>
             [] r.c = "send" ->
                  LET chordKeyHeld == must.on /\ must.kind = "chord" /\ \E k \in held: InSeq(pend.keys, k)
@@ -226,10 +234,10 @@ ConsumeLine ==
                  /\ pend' = (IF pend.on /\ pend.open THEN [pend EXCEPT !.lo = r.tout + pend.delay * 1000] ELSE pend)
                  /\ kq' = kq1 /\ tq' = tq1 /\ kN' = kN1 /\ tN' = tN1
                  /\ prevTimeout' = (prevTimeout /\ r.evs = <<>>)
-                 /\ UNCHANGED <<ended, inTab, afterTab, tabCleared, onJust, phys>>
+                 /\ UNCHANGED <<ended, inTab, afterTab, tabCleared, onJust, phys, mphys>>
 
 Flush == /\ l = N + 1 /\ ~flushed /\ flushed' = TRUE /\ Report(cur, viol)
-         /\ UNCHANGED <<l, cur, opt, kq, tq, kN, tN, ended, failed, errmsg, inTab, afterTab, tabCleared, held, phys, must, pend, onJust, prevOut, prevTimeout, viol, cs, lay>>
+         /\ UNCHANGED <<l, cur, opt, kq, tq, kN, tN, ended, failed, errmsg, inTab, afterTab, tabCleared, held, phys, mphys, must, pend, onJust, prevOut, prevTimeout, viol, cs, lay>>
 
 Next == ConsumeLine \/ Flush
 Spec == Init /\ [][Next]_vars
